@@ -197,7 +197,8 @@ def record_traces(chk, th, sources, calls, runs_per_prog, seed, style="mixed", m
     jobs = []
     for p, (name, src) in enumerate(sources, 1):
         for r in range(runs_per_prog):
-            jobs.append(dict(src, p=p, seed=rng.randrange(1 << 30), calls=calls, style=style,
+            # every second execution copies the machine at a random point (and later moves the copy): the copy's log is a further execution
+            jobs.append(dict(src, p=p, seed=rng.randrange(1 << 30), calls=calls, style=style, fork=(r % 2 == 1),
                              may_diverge=bool(may_diverge and may_diverge[p - 1])))
     execs = []
     for recs, rc, err, part in parallel_th(th, ["vmtrace"], jobs, timeout=900):
